@@ -26,7 +26,6 @@ META = dict(
 
 GS_QUICK = [0, 1, 2, 5, 10, 16, 20, 31, 32]
 GS_ALL = list(range(33))
-REJ = re.compile(r'^<<"REJECTED", (\d+), "([^"]*)", <<([\d, ]*)>>, (\d+)>>$')
 
 
 def run_engine(ck, binary, engine, name, rows, mk_replay, gate=True):
@@ -108,11 +107,10 @@ def validate(ck, events, name, mutate=None):
         consumed = any(p.startswith('<<"CONSUMED", %d>>' % len(chunks[k])) for p in r.prints)
         if not r.ok or not consumed:
             raise vf.ToolError("trace validation did not consume the trace: %s\n%s" % (r.error, r.raw[-1500:]))
-        for p in r.prints:
-            m = REJ.match(p)
-            if m:
-                pos = [int(x) for x in m.group(3).split(",")] if m.group(3).strip() else []
-                rejected.append((chunks[k][int(m.group(1)) - 1], m.group(2), pos, int(m.group(4))))
+        for j in r.tagged("REJECTED"):
+            rejected.append((chunks[k][j["l"] - 1], j["clause"], list(j["pos"]), j["count"]))
+        if any(p.startswith('<<"REJECTED"') for p in r.prints) and not r.tagged("REJECTED"):
+            raise vf.ToolError("unparsed REJECTED line in TLC output")
     return rejected
 
 
